@@ -43,8 +43,8 @@ theorem C04_inherit (g : Store) (t : PTree) (catalog : Dict) (fuel : Nat)
 
 /-- **Pages.** Hence the `PDFPage` objects (Rotate reduced, boxes parsed/normalised/defaulted,
 Resources) built by `create_pages` are exactly those the specification builds from
-own-or-inherited attributes, in the same order, with the same exception (if a box is not
-numeric) at the same place. Needs all four attributes to be in `INHERITABLE_ATTRS`. -/
+own-or-inherited attributes, in the same order (constructing a page raises nothing: ill-typed
+boxes take the default). Needs all four attributes to be in `INHERITABLE_ATTRS`. -/
 theorem C04_pages (g : Store) (t : PTree) (catalog : Dict) (fuel : Nat)
     (hE : Embeds g t) (hroot : dget catalog "Pages" = some (.atom (.ref t.id)))
     (hcat : ∀ k ∈ INHERITABLE_ATTRS, dget catalog k = none)
@@ -129,6 +129,7 @@ theorem C04_terminates (g : Store) (nodes : List Nat) (hfin : ∀ n, g n ≠ non
     · rw [h1]; exact h2 List.nodup_nil
     · have hn : new.Nodup := by simpa using h2 List.nodup_nil
       exact h3.nodup ((List.reverse_perm new).nodup_iff.mpr hn)
+  · exact ⟨by simp, List.nodup_nil, by simp⟩
   · exact ⟨by simp, List.nodup_nil, by simp⟩
 
 /-- A two-node cycle with a repeated kid and a self loop: the walk ends, page 3 comes once. -/
@@ -257,33 +258,23 @@ theorem C04_box_normalised (r : Rect) :
 
 /-- Every `PDFPage` that is constructed has Rotate in 0..359 and normalised MediaBox and CropBox
 (whatever the attribute values: defaults, wrong-length arrays, swapped corners). -/
-theorem C04_page_values (g : Store) (id : Nat) (res mb cb rot : Option Val) (pg : Page)
-    (h : mkPage g id res mb cb rot = .ok pg) :
-    0 ≤ pg.rotate ∧ pg.rotate < 360 ∧ Normalised pg.mediabox ∧ Normalised pg.cropbox := by
-  unfold mkPage at h
-  simp only at h
-  split at h
-  · cases h
-  · rename_i mbox hmb
-    have hm : Normalised mbox := by
-      cases mb with
-      | none => simp only [Except.ok.injEq] at hmb; subst hmb; exact us_letter_normalised
-      | some v => exact box_default g v US_LETTER mbox us_letter_normalised hmb
-    split at h
-    · cases h
-    · rename_i cbox hcb
-      have hc : Normalised cbox := by
-        cases cb with
-        | none => simp only [Except.ok.injEq] at hcb; subst hcb; exact hm
-        | some v => exact box_default g v mbox cbox hm hcb
-      simp only [Except.ok.injEq] at h
-      subst h
-      simp only
-      have hr : ∀ r : Int, 0 ≤ norm_rotate r ∧ norm_rotate r < 360 := by
-        intro r
-        simp only [norm_rotate, pyMod]
-        rw [Int.fmod_eq_emod_of_nonneg _ (by omega)]
-        omega
-      exact ⟨(hr _).1, (hr _).2, hm, hc⟩
+theorem C04_page_values (g : Store) (id : Nat) (res mb cb rot : Option Val) :
+    0 ≤ (mkPage g id res mb cb rot).rotate ∧ (mkPage g id res mb cb rot).rotate < 360 ∧
+    Normalised (mkPage g id res mb cb rot).mediabox ∧ Normalised (mkPage g id res mb cb rot).cropbox := by
+  have hr : ∀ r : Int, 0 ≤ norm_rotate r ∧ norm_rotate r < 360 := by
+    intro r
+    simp only [norm_rotate, pyMod]
+    rw [Int.fmod_eq_emod_of_nonneg _ (by omega)]
+    omega
+  have hm : Normalised (mkPage g id res mb cb rot).mediabox := by
+    unfold mkPage
+    cases mb with
+    | none => exact us_letter_normalised
+    | some v => exact box_default g v US_LETTER us_letter_normalised
+  refine ⟨(hr _).1, (hr _).2, hm, ?_⟩
+  unfold mkPage at hm ⊢
+  cases cb with
+  | none => exact hm
+  | some v => exact box_default g v _ hm
 
 end PdfVerif.Props.C04
